@@ -5,6 +5,8 @@
 #include <etl/array.hpp>
 #include <etl/bit.hpp>
 #include <etl/chrono.hpp>
+#include <etl/cstring.hpp>
+#include <etl/cwchar.hpp>
 #include <etl/mdspan.hpp>
 #include <etl/numeric.hpp>
 #include <etl/span.hpp>
@@ -15,6 +17,8 @@
 #include "../sim/driver.hpp"
 #include "../sim/worker.hpp"
 
+#include <cstring>
+#include <cwchar>
 #include <string_view>
 
 namespace {
@@ -601,6 +605,530 @@ struct ViewDriver : DriverBase<ViewDriver> {
     }
 };
 
+
+// ================================================================================================ C strings
+// Family `views`, scenario `cstring` / `cwchar`: histories over three caller-owned C-string buffers of exact size. The
+// buffers are the whole world: what was written into them by earlier calls (and the garbage that still lies behind the
+// terminator) is what the next call meets. Faults: destination that fits exactly (F1), count 0 and count == capacity,
+// overlapping memmove (F6), garbage behind the terminator and behind the defined prefix (F3).
+// Oracles: memory (C02: canaries on both sides of every buffer - poisoned under ASan -, no allocation, results
+// independent of the garbage pattern). The value comparison with the host C library is filed under C18, which no check
+// claims (a foreign divergence in the evidence).
+template <typename C>
+struct CFn;
+
+template <>
+struct CFn<char> {
+    static auto e_len(char const* s) -> size_t { return etl::strlen(s); }
+    static auto c_len(char const* s) -> size_t { return std::strlen(s); }
+    static auto e_cpy(char* d, char const* s) -> char* { return etl::strcpy(d, s); }
+    static auto c_cpy(char* d, char const* s) -> char* { return std::strcpy(d, s); }
+    static auto e_ncpy(char* d, char const* s, size_t n) -> char* { return etl::strncpy(d, s, n); }
+    static auto c_ncpy(char* d, char const* s, size_t n) -> char* { return std::strncpy(d, s, n); }
+    static auto e_cat(char* d, char const* s) -> char* { return etl::strcat(d, s); }
+    static auto c_cat(char* d, char const* s) -> char* { return std::strcat(d, s); }
+    static auto e_ncat(char* d, char const* s, size_t n) -> char* { return etl::strncat(d, s, n); }
+    static auto c_ncat(char* d, char const* s, size_t n) -> char* { return std::strncat(d, s, n); }
+    static auto e_cmp(char const* a, char const* b) -> int { return etl::strcmp(a, b); }
+    static auto c_cmp(char const* a, char const* b) -> int { return std::strcmp(a, b); }
+    static auto e_ncmp(char const* a, char const* b, size_t n) -> int { return etl::strncmp(a, b, n); }
+    static auto c_ncmp(char const* a, char const* b, size_t n) -> int { return std::strncmp(a, b, n); }
+    static auto e_chr(char const* a, char c) -> char const* { return etl::strchr(a, c); }
+    static auto c_chr(char const* a, char c) -> char const* { return std::strchr(a, c); }
+    static auto e_rchr(char const* a, char c) -> char const* { return etl::strrchr(a, c); }
+    static auto c_rchr(char const* a, char c) -> char const* { return std::strrchr(a, c); }
+    static auto e_spn(char const* a, char const* b) -> size_t { return etl::strspn(a, b); }
+    static auto c_spn(char const* a, char const* b) -> size_t { return std::strspn(a, b); }
+    static auto e_cspn(char const* a, char const* b) -> size_t { return etl::strcspn(a, b); }
+    static auto c_cspn(char const* a, char const* b) -> size_t { return std::strcspn(a, b); }
+    static auto e_pbrk(char const* a, char const* b) -> char const* { return etl::strpbrk(a, b); }
+    static auto c_pbrk(char const* a, char const* b) -> char const* { return std::strpbrk(a, b); }
+    static auto e_str(char const* a, char const* b) -> char const* { return etl::strstr(a, b); }
+    static auto c_str(char const* a, char const* b) -> char const* { return std::strstr(a, b); }
+    static auto e_mcpy(char* d, char const* s, size_t n) -> char* { return static_cast<char*>(etl::memcpy(d, s, n)); }
+    static auto c_mcpy(char* d, char const* s, size_t n) -> char* { return static_cast<char*>(std::memcpy(d, s, n)); }
+    static auto e_mmove(char* d, char const* s, size_t n) -> char* { return static_cast<char*>(etl::memmove(d, s, n)); }
+    static auto c_mmove(char* d, char const* s, size_t n) -> char* { return static_cast<char*>(std::memmove(d, s, n)); }
+    static auto e_mset(char* d, char c, size_t n) -> char* { return static_cast<char*>(etl::memset(d, c, n)); }
+    static auto c_mset(char* d, char c, size_t n) -> char* { return static_cast<char*>(std::memset(d, c, n)); }
+    static auto e_mchr(char const* a, char c, size_t n) -> char const* { return static_cast<char const*>(etl::memchr(static_cast<void const*>(a), c, n)); }
+    static auto c_mchr(char const* a, char c, size_t n) -> char const* { return static_cast<char const*>(std::memchr(a, c, n)); }
+    static auto e_mcmp(char const* a, char const* b, size_t n) -> int { return etl::memcmp(a, b, n); }
+    static auto c_mcmp(char const* a, char const* b, size_t n) -> int { return std::memcmp(a, b, n); }
+};
+
+template <>
+struct CFn<wchar_t> {
+    using W = wchar_t;
+    static auto e_len(W const* s) -> size_t { return etl::wcslen(s); }
+    static auto c_len(W const* s) -> size_t { return std::wcslen(s); }
+    static auto e_cpy(W* d, W const* s) -> W* { return etl::wcscpy(d, s); }
+    static auto c_cpy(W* d, W const* s) -> W* { return std::wcscpy(d, s); }
+    static auto e_ncpy(W* d, W const* s, size_t n) -> W* { return etl::wcsncpy(d, s, n); }
+    static auto c_ncpy(W* d, W const* s, size_t n) -> W* { return std::wcsncpy(d, s, n); }
+    static auto e_cat(W* d, W const* s) -> W* { return etl::wcscat(d, s); }
+    static auto c_cat(W* d, W const* s) -> W* { return std::wcscat(d, s); }
+    static auto e_ncat(W* d, W const* s, size_t n) -> W* { return etl::wcsncat(d, s, n); }
+    static auto c_ncat(W* d, W const* s, size_t n) -> W* { return std::wcsncat(d, s, n); }
+    static auto e_cmp(W const* a, W const* b) -> int { return etl::wcscmp(a, b); }
+    static auto c_cmp(W const* a, W const* b) -> int { return std::wcscmp(a, b); }
+    static auto e_ncmp(W const* a, W const* b, size_t n) -> int { return etl::wcsncmp(a, b, n); }
+    static auto c_ncmp(W const* a, W const* b, size_t n) -> int { return std::wcsncmp(a, b, n); }
+    static auto e_chr(W const* a, W c) -> W const* { return etl::wcschr(a, static_cast<int>(c)); }
+    static auto c_chr(W const* a, W c) -> W const* { return std::wcschr(a, c); }
+    static auto e_rchr(W const* a, W c) -> W const* { return etl::wcsrchr(a, static_cast<int>(c)); }
+    static auto c_rchr(W const* a, W c) -> W const* { return std::wcsrchr(a, c); }
+    static auto e_spn(W const* a, W const* b) -> size_t { return etl::wcsspn(a, b); }
+    static auto c_spn(W const* a, W const* b) -> size_t { return std::wcsspn(a, b); }
+    static auto e_cspn(W const* a, W const* b) -> size_t { return etl::wcscspn(a, b); }
+    static auto c_cspn(W const* a, W const* b) -> size_t { return std::wcscspn(a, b); }
+    static auto e_pbrk(W const* a, W const* b) -> W const* { return etl::wcspbrk(a, b); }
+    static auto c_pbrk(W const* a, W const* b) -> W const* { return std::wcspbrk(a, b); }
+    static auto e_str(W const* a, W const* b) -> W const* { return etl::wcsstr(a, b); }
+    static auto c_str(W const* a, W const* b) -> W const* { return std::wcsstr(a, b); }
+    static auto e_mcpy(W* d, W const* s, size_t n) -> W* { return etl::wmemcpy(d, s, n); }
+    static auto c_mcpy(W* d, W const* s, size_t n) -> W* { return std::wmemcpy(d, s, n); }
+    static auto e_mmove(W* d, W const* s, size_t n) -> W* { return etl::wmemmove(d, s, n); }
+    static auto c_mmove(W* d, W const* s, size_t n) -> W* { return std::wmemmove(d, s, n); }
+    static auto e_mset(W* d, W c, size_t n) -> W* { return etl::wmemset(d, c, n); }
+    static auto c_mset(W* d, W c, size_t n) -> W* { return std::wmemset(d, c, n); }
+    static auto e_mchr(W const* a, W c, size_t n) -> W const* { return etl::wmemchr(a, c, n); }
+    static auto c_mchr(W const* a, W c, size_t n) -> W const* { return std::wmemchr(a, c, n); }
+    static auto e_mcmp(W const* a, W const* b, size_t n) -> int { return etl::wmemcmp(a, b, n); }
+    static auto c_mcmp(W const* a, W const* b, size_t n) -> int { return std::wmemcmp(a, b, n); }
+};
+
+// exact-size caller buffer with a canary block on both sides (poisoned under ASan, compared in every build)
+template <typename C>
+struct GuardBuf {
+    static constexpr size_t G = 32; // canary characters per side
+    C* raw     = nullptr;
+    size_t cap = 0;
+
+    GuardBuf() = default;
+    GuardBuf(GuardBuf const&)                    = delete;
+    auto operator=(GuardBuf const&) -> GuardBuf& = delete;
+
+    ~GuardBuf() { release(); }
+
+    void release()
+    {
+        if (raw != nullptr) {
+#if SIM_ASAN
+            __asan_unpoison_memory_region(raw, (cap + 2 * G) * sizeof(C));
+#endif
+            std::free(raw);
+            raw = nullptr;
+        }
+    }
+
+    void allocate(size_t n)
+    {
+        release();
+        cap = n;
+        raw = static_cast<C*>(std::malloc((n + 2 * G) * sizeof(C)));
+        std::memset(raw, 0xC7, G * sizeof(C));
+        std::memset(raw + G + n, 0xC7, G * sizeof(C));
+#if SIM_ASAN
+        __asan_poison_memory_region(raw, G * sizeof(C));
+        __asan_poison_memory_region(raw + G + n, G * sizeof(C));
+#endif
+    }
+
+    [[nodiscard]] auto data() const -> C* { return raw + G; }
+
+    [[nodiscard]] auto guards_ok() const -> bool
+    {
+#if SIM_ASAN
+        __asan_unpoison_memory_region(raw, G * sizeof(C));
+        __asan_unpoison_memory_region(raw + G + cap, G * sizeof(C));
+#endif
+        bool ok        = true;
+        auto const* lo = reinterpret_cast<unsigned char const*>(raw);
+        auto const* hi = reinterpret_cast<unsigned char const*>(raw + G + cap);
+        for (size_t i = 0; i < G * sizeof(C); ++i) {
+            ok = ok && lo[i] == 0xC7 && hi[i] == 0xC7;
+        }
+        if (!ok) {
+            std::memset(raw, 0xC7, G * sizeof(C));
+            std::memset(raw + G + cap, 0xC7, G * sizeof(C));
+        }
+#if SIM_ASAN
+        __asan_poison_memory_region(raw, G * sizeof(C));
+        __asan_poison_memory_region(raw + G + cap, G * sizeof(C));
+#endif
+        return ok;
+    }
+};
+
+template <typename C>
+struct CstrDriver : DriverBase<CstrDriver<C>> {
+    using Base = DriverBase<CstrDriver<C>>;
+    using Base::begin_op;
+    using Base::call;
+    using Base::ctx;
+    using Base::plan;
+    using Base::skip;
+    using F = CFn<C>;
+
+    static constexpr int kBufs = 3;
+    GuardBuf<C> buf[kBufs];
+    std::vector<C> mdl[kBufs]; // the same characters (including the garbage), driven by the host C library
+    size_t def[kBufs] = {};    // [0, def) has been written by the harness or by a call; it contains a terminator
+
+    CstrDriver(Plan const& p, Ctx& c)
+        : Base(p, c)
+    {
+    }
+
+    void resync(int) { }
+
+    auto check_state(int, char const*, char const*) -> bool { return true; }
+
+    auto letter(int64_t v) const -> C { return static_cast<C>('a' + static_cast<int>(static_cast<uint64_t>(v) % static_cast<uint64_t>(plan.cfg.alpha < 2 ? 2 : plan.cfg.alpha))); }
+
+    void create(int i, Step const& st, uint64_t salt)
+    {
+        static constexpr size_t caps[] = {1, 2, 3, 5, 9, 17, 33};
+        size_t const cap = caps[(st.k[0] + salt) % 7];
+        buf[i].allocate(cap);
+        mdl[i].assign(cap, C(0));
+        uint64_t gs = plan.cfg.gseed ^ mix64(salt * 977 + static_cast<uint64_t>(i));
+        for (size_t j = 0; j < cap; ++j) {
+            C g = C(0);
+            for (size_t b = 0; b < sizeof(C); ++b) {
+                g = static_cast<C>(static_cast<unsigned long long>(g) | (static_cast<unsigned long long>(garbage_byte(plan.cfg, gs)) << (8 * b)));
+            }
+            if constexpr (sizeof(C) > 1) {
+                g = static_cast<C>(static_cast<unsigned long long>(g) & 0x10FFFFULL); // a valid wchar_t value
+            }
+            buf[i].data()[j] = g;
+        }
+        size_t const len = static_cast<size_t>((st.k[1] + salt) % cap); // 0 .. cap-1
+        for (size_t j = 0; j < len; ++j) {
+            buf[i].data()[j] = letter(st.v[j % 4] + static_cast<int64_t>(j * (salt + 1)));
+        }
+        buf[i].data()[len] = C(0);
+        def[i]             = len + 1;
+        std::copy(buf[i].data(), buf[i].data() + cap, mdl[i].begin());
+    }
+
+    // harness write (not a library call): every buffer holds a terminated string before the next call
+    void ensure_terminated(int i)
+    {
+        for (size_t j = 0; j < def[i]; ++j) {
+            if (mdl[i][j] == C(0)) {
+                return;
+            }
+        }
+        size_t at = def[i] < buf[i].cap ? def[i] : buf[i].cap - 1;
+        buf[i].data()[at] = C(0);
+        mdl[i][at]        = C(0);
+        def[i]            = std::max(def[i], at + 1);
+    }
+
+    auto mlen(int i) const -> size_t { return F::c_len(mdl[i].data()); }
+
+    void foreign(char const* what)
+    {
+        ctx.violation("C18", std::string("diff:cstring:") + what + ":" + ctx.op, std::string(what) + " differs from the host C library");
+    }
+
+    // after a mutator: the defined prefix must equal the model's, the returned pointer must be dest, canaries intact
+    void verify(int i, C const* ret, C const* want)
+    {
+        if (ret != want) {
+            foreign("returned-pointer");
+        }
+        bool same = true;
+        for (size_t j = 0; j < def[i]; ++j) {
+            same = same && buf[i].data()[j] == mdl[i][j];
+        }
+        if (!same) {
+            foreign("content");
+            std::copy(buf[i].data(), buf[i].data() + buf[i].cap, mdl[i].begin());
+        }
+        ensure_terminated(i);
+    }
+
+    void check_guards()
+    {
+        for (int i = 0; i < kBufs; ++i) {
+            if (!buf[i].guards_ok()) {
+                ctx.violation("C02", "memory:guard-damaged", "a C-string function wrote outside the destination buffer (buffer " + std::to_string(i) + ")");
+            }
+        }
+    }
+
+    static auto sgn(int x) -> int { return (x > 0) - (x < 0); }
+
+    void step(Step const& st)
+    {
+        int const a      = static_cast<int>(st.a % kBufs);
+        int b            = static_cast<int>(st.b % kBufs);
+        char const* name = ops()[static_cast<size_t>(st.op)].name;
+        std::string const op = name;
+        begin_op(name, a);
+        ctx.log.kv("b", b);
+        C* const A        = buf[a].data();
+        size_t const capA = buf[a].cap;
+        size_t const lenA = mlen(a);
+        if (op == "recreate") {
+            create(a, st, static_cast<uint64_t>(ctx.step) + 2);
+            ctx.log.kv("cap", static_cast<long long>(buf[a].cap));
+            ++ctx.stateChanging;
+            return;
+        }
+        if (op == "observe") {
+            C const* B        = buf[b].data();
+            C const ch        = st.k[2] % 5 == 0 ? C(0) : letter(st.v[0]);
+            size_t const n    = static_cast<size_t>(st.k[0] % (capA + 3));
+            size_t const nm   = static_cast<size_t>(st.k[1] % (std::min(def[a], def[b]) + 1));
+            size_t const nc   = static_cast<size_t>(st.k[1] % (def[a] + 1));
+            long long r[11]   = {};
+            long long w[11]   = {};
+            C const* const MA = mdl[a].data();
+            C const* const MB = mdl[b].data();
+            auto off          = [](C const* p, C const* base) -> long long { return p == nullptr ? -1 : static_cast<long long>(p - base); };
+            bool ok           = call(-1, false, false, [&] {
+                r[0]  = static_cast<long long>(F::e_len(A));
+                r[1]  = sgn(F::e_cmp(A, B));
+                r[2]  = sgn(F::e_ncmp(A, B, n));
+                r[3]  = off(F::e_chr(A, ch), A);
+                r[4]  = off(F::e_rchr(A, ch), A);
+                r[5]  = static_cast<long long>(F::e_spn(A, B));
+                r[6]  = static_cast<long long>(F::e_cspn(A, B));
+                r[7]  = off(F::e_pbrk(A, B), A);
+                r[8]  = off(F::e_str(A, B), A);
+                r[9]  = off(F::e_mchr(A, ch, nc), A);
+                r[10] = sgn(F::e_mcmp(A, B, nm));
+            });
+            if (!ok) {
+                return;
+            }
+            w[0]  = static_cast<long long>(F::c_len(MA));
+            w[1]  = sgn(F::c_cmp(MA, MB));
+            w[2]  = sgn(F::c_ncmp(MA, MB, n));
+            w[3]  = off(F::c_chr(MA, ch), MA);
+            w[4]  = off(F::c_rchr(MA, ch), MA);
+            w[5]  = static_cast<long long>(F::c_spn(MA, MB));
+            w[6]  = static_cast<long long>(F::c_cspn(MA, MB));
+            w[7]  = off(F::c_pbrk(MA, MB), MA);
+            w[8]  = off(F::c_str(MA, MB), MA);
+            w[9]  = off(F::c_mchr(MA, ch, nc), MA);
+            w[10] = sgn(F::c_mcmp(MA, MB, nm));
+            static char const* const what[11] = {"strlen", "strcmp", "strncmp", "strchr", "strrchr", "strspn", "strcspn", "strpbrk", "strstr", "memchr", "memcmp"};
+            for (int i = 0; i < 11; ++i) {
+                ctx.log.i(r[i]);
+                if (r[i] != w[i]) {
+                    foreign(what[i]);
+                }
+            }
+            if (n == 0 || nm == 0 || nc == 0) {
+                SIM_COUNT("reach.cstr_zero_count");
+            }
+            if (a == b) {
+                SIM_COUNT("F6.cstr_same_buffer_twice");
+            }
+            return;
+        }
+        // ---- mutators: source and destination must be different buffers (except memmove, which works inside one)
+        if (op != "memmove" && op != "memset" && a == b) {
+            b = (a + 1) % kBufs;
+            ctx.log.kv("b2", b);
+        }
+        C const* const B  = buf[b].data();
+        size_t const lenB = mlen(b);
+        C* const MA       = mdl[a].data();
+        C const* const MB = mdl[b].data();
+        C* ret            = nullptr;
+        auto exact        = [&](size_t needed) {
+            if (needed == capA) {
+                SIM_COUNT("F1.cstr_destination_fits_exactly");
+                ++ctx.faultsFired;
+                ++ctx.boundaryEvents;
+            }
+        };
+        if (op == "strcpy") {
+            if (lenB + 1 > capA) {
+                skip();
+                return;
+            }
+            exact(lenB + 1);
+            if (call(-1, false, false, [&] { ret = F::e_cpy(A, B); })) {
+                F::c_cpy(MA, MB);
+                def[a] = std::max(def[a], lenB + 1);
+                verify(a, ret, A);
+                ++ctx.stateChanging;
+            }
+            return;
+        }
+        if (op == "strncpy") {
+            size_t const n = st.flt != 0 ? capA : static_cast<size_t>(st.k[0] % (capA + 1));
+            ctx.log.kv("n", static_cast<long long>(n));
+            exact(n);
+            if (n == 0) {
+                SIM_COUNT("reach.cstr_zero_count");
+            }
+            if (call(-1, false, false, [&] { ret = F::e_ncpy(A, B, n); })) {
+                F::c_ncpy(MA, MB, n);
+                def[a] = std::max(def[a], n);
+                verify(a, ret, A);
+                ++ctx.stateChanging;
+            }
+            return;
+        }
+        if (op == "strcat") {
+            if (lenA + lenB + 1 > capA) {
+                skip();
+                return;
+            }
+            exact(lenA + lenB + 1);
+            if (call(-1, false, false, [&] { ret = F::e_cat(A, B); })) {
+                F::c_cat(MA, MB);
+                def[a] = std::max(def[a], lenA + lenB + 1);
+                verify(a, ret, A);
+                ++ctx.stateChanging;
+            }
+            return;
+        }
+        if (op == "strncat") {
+            size_t n = static_cast<size_t>(st.k[0] % (lenB + 3));
+            if (st.flt != 0 && capA > lenA + 1) {
+                n = std::min(lenB, capA - lenA - 1); // as much as fits exactly
+            }
+            size_t const add = std::min(n, lenB);
+            if (lenA + add + 1 > capA) {
+                skip();
+                return;
+            }
+            ctx.log.kv("n", static_cast<long long>(n));
+            exact(lenA + add + 1);
+            if (call(-1, false, false, [&] { ret = F::e_ncat(A, B, n); })) {
+                F::c_ncat(MA, MB, n);
+                def[a] = std::max(def[a], lenA + add + 1);
+                verify(a, ret, A);
+                ++ctx.stateChanging;
+            }
+            return;
+        }
+        if (op == "memset") {
+            size_t const n = st.flt != 0 ? capA : static_cast<size_t>(st.k[0] % (capA + 1));
+            C const ch     = st.k[1] % 4 == 0 ? C(0) : letter(st.v[0]);
+            ctx.log.kv("n", static_cast<long long>(n));
+            exact(n);
+            if (call(-1, false, false, [&] { ret = F::e_mset(A, ch, n); })) {
+                F::c_mset(MA, ch, n);
+                def[a] = std::max(def[a], n);
+                verify(a, ret, A);
+                ++ctx.stateChanging;
+            }
+            return;
+        }
+        if (op == "memcpy") {
+            size_t const lim = std::min(capA, def[b]);
+            size_t const n   = st.flt != 0 ? lim : static_cast<size_t>(st.k[0] % (lim + 1));
+            ctx.log.kv("n", static_cast<long long>(n));
+            exact(n);
+            if (call(-1, false, false, [&] { ret = F::e_mcpy(A, B, n); })) {
+                F::c_mcpy(MA, MB, n);
+                def[a] = std::max(def[a], n);
+                verify(a, ret, A);
+                ++ctx.stateChanging;
+            }
+            return;
+        }
+        if (op == "memmove") {
+            // inside one buffer: source window [src, src+n) within the defined prefix, destination window within the
+            // capacity; the two overlap unless they happen not to
+            size_t const src = static_cast<size_t>(st.k[0] % def[a]);
+            size_t const n   = static_cast<size_t>(st.k[1] % (def[a] - src + 1));
+            size_t const dst = static_cast<size_t>(st.k[2] % (capA - n + 1));
+            ctx.log.kv("src", static_cast<long long>(src));
+            ctx.log.kv("dst", static_cast<long long>(dst));
+            ctx.log.kv("n", static_cast<long long>(n));
+            if (dst > def[a]) {
+                skip(); // would leave an undefined gap between the prefix and the moved block
+                return;
+            }
+            if (n != 0 && dst < src + n && src < dst + n) {
+                SIM_COUNT("F6.memmove_overlap");
+                ++ctx.faultsFired;
+                ++ctx.boundaryEvents;
+            }
+            exact(dst + n);
+            if (call(-1, false, false, [&] { ret = F::e_mmove(A + dst, A + src, n); })) {
+                F::c_mmove(MA + dst, MA + src, n);
+                def[a] = std::max(def[a], dst + n);
+                verify(a, ret, A + dst);
+                ++ctx.stateChanging;
+            }
+            return;
+        }
+        skip();
+    }
+
+    void run()
+    {
+        Step init{};
+        for (int i = 0; i < kBufs; ++i) {
+            // sizes and contents come from the plan's seed, never from the garbage generator: the second pass of the C02
+            // oracle replaces the garbage and must meet the same world
+            uint64_t const w = mix64(plan.seed ^ 0x63737472ULL);
+            init.k[0]        = w >> (3 * i);
+            init.k[1]        = w >> (7 + 5 * i);
+            for (int j = 0; j < 4; ++j) {
+                init.v[j] = static_cast<int64_t>((w >> (11 + 2 * j)) & 7U);
+            }
+            create(i, init, static_cast<uint64_t>(i) * 131);
+        }
+        for (size_t s = 0; s < plan.steps.size() && !ctx.stop; ++s) {
+            ctx.step     = static_cast<int>(s);
+            g_crash.step = ctx.step;
+            step(plan.steps[s]);
+            check_guards();
+            uint64_t sh = 0;
+            for (int i = 0; i < kBufs; ++i) {
+                uint64_t h = buf[i].cap;
+                for (size_t j = 0; j < def[i]; ++j) {
+                    h = mix64(h ^ static_cast<uint64_t>(buf[i].data()[j]));
+                }
+                ctx.log.feed(h);
+                sh = mix64(sh ^ (buf[i].cap * 64 + mlen(i)) ^ (static_cast<uint64_t>(i) << 40));
+            }
+            if (g_counting) {
+                states().insert(sh);
+                transitions().insert(mix64(sh ^ hstr(ctx.op)));
+            }
+            ctx.log.nl();
+        }
+    }
+
+    static auto ops() -> std::vector<OpDef> const&
+    {
+        static std::vector<OpDef> const o = {
+            {"recreate", 4}, {"observe", 8}, {"strcpy", 5}, {"strncpy", 5}, {"strcat", 5}, {"strncat", 5}, {"memset", 3}, {"memcpy", 4}, {"memmove", 5},
+        };
+        return o;
+    }
+};
+
+template <typename C>
+void add_cstr(char const* name)
+{
+    Scenario s;
+    s.family   = "views";
+    s.name     = name;
+    s.ops      = CstrDriver<C>::ops();
+    s.props    = {"C02"};
+    s.maxSteps = 30;
+    s.run      = [](Plan const& p, Ctx& c) {
+        CstrDriver<C> d(p, c);
+        d.run();
+    };
+    registry().push_back(std::move(s));
+}
+
 } // namespace
 
 auto main(int argc, char** argv) -> int
@@ -616,5 +1144,7 @@ auto main(int argc, char** argv) -> int
         d.run();
     };
     registry().push_back(std::move(s));
+    add_cstr<char>("cstring-over-exact-buffers");
+    add_cstr<wchar_t>("cwchar-over-exact-buffers");
     return sim::worker_main(argc, argv);
 }
